@@ -200,6 +200,18 @@ def n_leaves(tree):
     return n
 
 
+def _position_bits(tree, i):
+    """left/right choices (0/1) from the root to the i-th leaf in tree order — computed here, not by btclib"""
+    bits = ""
+    while len(tree) == 2:
+        nl = n_leaves(tree[0])
+        if i < nl:
+            bits, tree = bits + "0", tree[0]
+        else:
+            bits, tree, i = bits + "1", tree[1], i - nl
+    return bits
+
+
 def gen_trees(ctx):
     rng = ctx.rng
     out = []
@@ -413,6 +425,13 @@ def _impl(op, a):
         return f"ok {hx(root)} " + "|".join(f"{v}:{hx(T.serialize(list(s)))}:{hx(p)}" for (v, s), p in info)
     if op == "leafhash":
         return "ok " + hx(T.leaf_hash(int(a[0]), unhx(a[1])))
+    if op == "pathof":
+        tree, i = tree_of(a[0]), int(a[1])
+        info, _ = T.tree_helper(tree)
+        if not 0 <= i < len(info):
+            return "err index"
+        (v, sc), path = info[i]
+        return f"ok {_position_bits(tree, i) or '_'} {v}:{hx(T.serialize(list(sc)))}:{hx(path)}"
     if op == "pytree":
         info, root = T.tree_helper(py_obj(py_ast(a[0])))
         return f"ok {hx(root)} " + "|".join(f"{v}:{hx(T.serialize(list(s)))}:{hx(p)}" for (v, s), p in info)
@@ -927,7 +946,7 @@ def run(ctx):
             trees.append(("bip341", _vec_tree(v["given"]["scriptTree"])))
 
     stk0 = tok_of([(0xC0, ["OP_1"])])
-    L = {k: [] for k in ("tree", "leafhash", "outpub", "outpubroot", "outprv", "outprvroot", "iss", "check",
+    L = {k: [] for k in ("tree", "pathof", "leafhash", "outpub", "outpubroot", "outprv", "outprvroot", "iss", "check",
                           "check.mutated", "malformed")}
     flips = []
     for kind, tree in trees:
@@ -936,6 +955,8 @@ def run(ctx):
         ctx.count("trees", kind)
         ctx.count("leaves", "1" if nl == 1 else "2-4" if nl <= 4 else "5-16" if nl <= 16 else ">16")
         L["tree"].append(f"tree {tk}")
+        for i in sorted(set([0, nl - 1, nl, rng.randrange(nl), rng.randrange(nl)])):
+            L["pathof"].append(f"pathof {tk} {i}")
         d = rng.randrange(1, N)
         sp = spellings(rng, d)
         ctx.count("internal key parity", "even" if mult(d)[1] % 2 == 0 else "odd")
@@ -1106,7 +1127,7 @@ def run(ctx):
             L["pyentry"] += [f"outpubpy@{arm_} {kk} {tk}", f"isspy@{arm_} {kk} {tk} {rng.choice([0, 0, 1, -1, 3])}",
                              f"outprvpy@{arm_} {rng.choice([dk, dk, 0, N, 1])} {tk}"]
 
-    for name in ("tree", "leafhash", "outpub", "outpubroot", "outprv", "outprvroot", "iss", "check", "check.mutated"):
+    for name in ("tree", "pathof", "leafhash", "outpub", "outpubroot", "outprv", "outprvroot", "iss", "check", "check.mutated"):
         ctx.stream(name, L[name])
     ctx.stream("malformed", L["malformed"], nontrivial=lambda ln, out: True)
     ctx.stream("pytree", L["pytree"], nontrivial=lambda ln, out: True)
